@@ -47,7 +47,7 @@ ENV.update({"CARGO_NET_OFFLINE": "true", "GOPROXY": "off", "PIP_NO_INDEX": "1"})
 DYNAMIC = {
     "C01": dict(profiles=["core", "weak", "barrier", "finalize"], mode="od", tags=["C01"]),
     "C02": dict(profiles=["reclaim", "weak", "core"], mode="od", tags=["C02"]),
-    "C03": dict(profiles=["core", "protocol", "pacing"], mode="od", tags=["C03"]),
+    "C03": dict(profiles=["core", "protocol", "weak"], mode="od", tags=["C03"]),
     "C04": dict(profiles=["core", "weak", "reclaim"], mode="od", tags=["C04"]),
     # a reachable value lost after an upgrade-and-store / a barriered adoption / a resurrection is a
     # violation of the weak / barrier / finalization property too: C01's monitor counts for them
